@@ -234,8 +234,8 @@ def run(ctx):
     for i in range(n):
         g = Gen(rng, maxdepth=rng.choice([1, 2, 2, 3] if ctx.quick else [2, 3, 3, 4]), fragment="full", reparse_safe=True)
         try:
-            if i < 5 * ctx.pick(8, 40):
-                r = [g.select_family, lambda: g.lazy_family(2), g.region_family, g.root_family, lambda: g.bitstream(True)][i % 5]()
+            if i < 6 * ctx.pick(8, 40):
+                r = [g.select_family, lambda: g.lazy_family(2), g.region_family, g.root_family, lambda: g.bitstream(True), g.index_family][i % 6]()
             else:
                 r = g.recipe()
         except (M.ModelGap, M.MissingKey, M.Unsized):
